@@ -207,6 +207,13 @@ class SymbolicExpression(Generic[T], ABC):
     def _add_conclusion_(self, conclusion: Conclusion):
         self._conclusion_.add(conclusion)
 
+    def _reset_evaluation_state_(self) -> None:
+        """
+        Forget what was recorded during a previous evaluation of the query this expression belongs to.
+        Called on every node when a new evaluation starts.
+        """
+        ...
+
     @lru_cache(maxsize=None)
     def _projection_(self, when_true: Optional[bool] = True) -> HashedIterable[int]:
         """
@@ -508,6 +515,8 @@ class ResultQuantifier(CanBehaveLikeAVariable[T], ABC):
         This is the exposed evaluation method for users.
         """
         SymbolGraph().remove_dead_instances()
+        for node in self._all_nodes_:
+            node._reset_evaluation_state_()
         yield from map(self._process_result_, self._evaluate__())
 
     def _evaluate__(
